@@ -219,8 +219,8 @@ lemma rowW_getD (k : ℕ) : (rowW exps).getD k 0 = (blk exps k).lp.nr := by
 lemma colW_length : (colW exps).length = exps.length := by simp [colW]
 lemma rowW_length : (rowW exps).length = exps.length := by simp [rowW]
 
-lemma mix_nc : (mixSupport pro exps).lp.nc = colEnd pro exps + 3 * pro.xmat.length := rfl
-lemma mix_nr : (mixSupport pro exps).lp.nr = rowEnd pro exps + 3 * pro.xmat.length := rfl
+lemma mix_nc : (mixSupport pro exps).lp.nc = colEnd pro exps + 3 * (xsrc pro exps).length := rfl
+lemma mix_nr : (mixSupport pro exps).lp.nr = rowEnd pro exps + 3 * (xsrc pro exps).length := rfl
 
 lemma pro_nc_le_colOff (k : ℕ) : pro.lp.nc ≤ colOff pro exps k := Nat.le_add_right _ _
 lemma pro_nc_le_colEnd : pro.lp.nc ≤ colEnd pro exps := Nat.le_add_right _ _
@@ -265,7 +265,7 @@ lemma locate_row_aux (o : ℕ) :
 lemma mixA_aux (o : ℕ) (j : ℕ) :
     mixA pro exps (rowEnd pro exps + o) j
       = if j = colEnd pro exps + o then 1
-        else if j = (pro.xmat.getD (o / 3) []).getD (o % 3) 0 then -1 else 0 := by
+        else if j = xcol pro exps o then -1 else 0 := by
   unfold mixA
   rw [if_neg (by unfold rowEnd; omega), locate_row_aux pro exps o]
   simp only [Nat.add_sub_cancel_left]
@@ -287,7 +287,7 @@ lemma mixEq_aux (o : ℕ) : mixEq pro exps (rowEnd pro exps + o) = decide (o % 3
 lemma row_cases (i : ℕ) (hi : i < (mixSupport pro exps).lp.nr) :
     i < pro.lp.nr ∨
     (∃ k r, k < exps.length ∧ r < (blk exps k).lp.nr ∧ i = rowOff pro exps k + r) ∨
-    (∃ o, o < 3 * pro.xmat.length ∧ i = rowEnd pro exps + o) := by
+    (∃ o, o < 3 * (xsrc pro exps).length ∧ i = rowEnd pro exps + o) := by
   rw [mix_nr] at hi
   by_cases h1 : i < pro.lp.nr
   · exact Or.inl h1
@@ -304,7 +304,7 @@ lemma row_cases (i : ℕ) (hi : i < (mixSupport pro exps).lp.nr) :
 
 lemma mix_row_pro (i : ℕ) (hi : i < pro.lp.nr) (x : ℕ → K) :
     (mixSupport pro exps).lp.row i x = ∑ j ∈ range pro.lp.nc, pro.lp.a i j * x j := by
-  show ∑ j ∈ range (colEnd pro exps + 3 * pro.xmat.length), mixA pro exps i j * x j = _
+  show ∑ j ∈ range (colEnd pro exps + 3 * (xsrc pro exps).length), mixA pro exps i j * x j = _
   rw [sum_prefix _ pro.lp.nc (by have := pro_nc_le_colEnd pro exps; omega)]
   · apply Finset.sum_congr rfl; intro j hj
     rw [mixA_pro pro exps i hi, if_pos (Finset.mem_range.mp hj)]
@@ -316,20 +316,19 @@ lemma mix_row_blk (k : ℕ) (hk : k < exps.length) (r : ℕ) (hr : r < (blk exps
     (mixSupport pro exps).lp.row (rowOff pro exps k + r) x
       = ∑ j ∈ range pro.lp.nc, - (((idx exps k).count j : ℕ) : K) * (blk exps k).lp.b r * x j
         + ∑ o ∈ range (blk exps k).lp.nc, (blk exps k).lp.a r o * x (colOff pro exps k + o) := by
-  show ∑ j ∈ range (colEnd pro exps + 3 * pro.xmat.length),
+  show ∑ j ∈ range (colEnd pro exps + 3 * (xsrc pro exps).length),
     mixA pro exps (rowOff pro exps k + r) j * x j = _
   simp only [mixA_blk pro exps k hk r hr]
   exact sum_two_regions _ pro.lp.nc (colOff pro exps k) (blk exps k).lp.nc
     (pro_nc_le_colOff pro exps k) (by have := colOff_add_le pro exps k hk; omega) _ _ x
 
-lemma mix_row_aux (o : ℕ) (ho : o < 3 * pro.xmat.length)
-    (hlt : (pro.xmat.getD (o / 3) []).getD (o % 3) 0 < pro.lp.nc) (x : ℕ → K) :
+lemma mix_row_aux (o : ℕ) (ho : o < 3 * (xsrc pro exps).length)
+    (hlt : xcol pro exps o < colEnd pro exps) (x : ℕ → K) :
     (mixSupport pro exps).lp.row (rowEnd pro exps + o) x
-      = x (colEnd pro exps + o) - x ((pro.xmat.getD (o / 3) []).getD (o % 3) 0) := by
-  show ∑ j ∈ range (colEnd pro exps + 3 * pro.xmat.length),
+      = x (colEnd pro exps + o) - x (xcol pro exps o) := by
+  show ∑ j ∈ range (colEnd pro exps + 3 * (xsrc pro exps).length),
     mixA pro exps (rowEnd pro exps + o) j * x j = _
   simp only [mixA_aux pro exps o]
-  have := pro_nc_le_colEnd pro exps
   exact sum_two _ _ _ (by omega) (by omega) (by omega) x
 
 lemma mix_b_pro (i : ℕ) (hi : i < pro.lp.nr) : (mixSupport pro exps).lp.b i = pro.lp.b i := by
@@ -355,23 +354,109 @@ lemma liftPoint_blk (k : ℕ) (hk : k < exps.length) (o : ℕ) (ho : o < (blk ex
   rw [this, locate_offs _ k o (by rw [colW_length]; exact hk) (by rw [colW_getD]; exact ho)]
 
 lemma liftPoint_aux (o : ℕ) :
-    liftPoint pro exps π ν (colEnd pro exps + o) = π ((pro.xmat.getD (o / 3) []).getD (o % 3) 0) := by
+    liftPoint pro exps π ν (colEnd pro exps + o) = liftBase pro exps π ν (xcol pro exps o) := by
   unfold liftPoint
   rw [if_neg (by unfold colEnd; omega), locate_none _ _ (by unfold colEnd; omega)]
   simp only [Nat.add_sub_cancel_left]
+
+lemma liftBase_pro (j : ℕ) (hj : j < pro.lp.nc) : liftBase pro exps π ν j = π j := by
+  unfold liftBase; rw [if_pos hj]
+
+lemma liftBase_blk (k : ℕ) (hk : k < exps.length) (o : ℕ) (ho : o < (blk exps k).lp.nc) :
+    liftBase pro exps π ν (colOff pro exps k + o) = evProb exps k π * ν k o := by
+  unfold liftBase
+  rw [if_neg (by unfold colOff; omega)]
+  have : colOff pro exps k + o - pro.lp.nc = offs (colW exps) k + o := by unfold colOff; omega
+  rw [this, locate_offs _ k o (by rw [colW_length]; exact hk) (by rw [colW_getD]; exact ho)]
+
+/-- in front of the auxiliary columns the lifted point is its non-auxiliary part -/
+lemma liftPoint_lt (j : ℕ) (hj : j < colEnd pro exps) :
+    liftPoint pro exps π ν j = liftBase pro exps π ν j := by
+  by_cases h : j < pro.lp.nc
+  · rw [liftPoint_pro pro exps π ν j h, liftBase_pro pro exps π ν j h]
+  · obtain ⟨k, o, _, hk, ho, he⟩ := locate_some (colW exps) (j - pro.lp.nc)
+      (by unfold colEnd at hj; omega)
+    rw [colW_length] at hk
+    rw [colW_getD] at ho
+    have hj' : j = colOff pro exps k + o := by unfold colOff; omega
+    rw [hj', liftPoint_blk pro exps π ν k hk o ho, liftBase_blk pro exps π ν k hk o ho]
 
 /-! #### Feasibility of the lifted point -/
 
 lemma getD_mem_gen {α : Type} (l : List α) (i : ℕ) (h : i < l.length) (d : α) : l.getD i d ∈ l := by
   rw [List.getD_eq_getElem _ _ h]; exact List.getElem_mem h
 
-/-- the `p`-index read by copy row / auxiliary column `o` is a column of `pro` -/
-lemma xidx_lt (hxl : ∀ e ∈ pro.xmat, e.length = 3) (hxp : ∀ e ∈ pro.xmat, ∀ j ∈ e, j < pro.lp.nc)
-    (o : ℕ) (ho : o < 3 * pro.xmat.length) :
-    (pro.xmat.getD (o / 3) []).getD (o % 3) 0 < pro.lp.nc := by
-  have hm : pro.xmat.getD (o / 3) [] ∈ pro.xmat := getD_mem_gen _ _ (by omega) _
-  have hl := hxl _ hm
-  exact hxp _ hm _ (getD_mem_gen _ _ (by rw [hl]; exact Nat.mod_lt _ (by omega)) _)
+lemma getD_map_lt (l : List ℕ) (f : ℕ → ℕ) (t : ℕ) (h : t < l.length) :
+    (l.map f).getD t 0 = f (l.getD t 0) := by
+  rw [List.getD_eq_getElem _ _ (by simpa using h), List.getD_eq_getElem _ _ h, List.getElem_map]
+
+lemma mem_xsrc (e : List ℕ) :
+    e ∈ xsrc pro exps ↔
+      e ∈ pro.xmat ∨ ∃ k, k < exps.length ∧ ∃ e' ∈ (blk exps k).xmat,
+        e = e'.map fun j => j + colOff pro exps k := by
+  show e ∈ pro.xmat ++ (List.range exps.length).flatMap (fun k =>
+      (blk exps k).xmat.map fun e => e.map fun j => j + colOff pro exps k) ↔ _
+  simp only [List.mem_append, List.mem_flatMap, List.mem_range, List.mem_map]
+  constructor
+  · rintro (h | ⟨k, hk, e', he', rfl⟩)
+    · exact Or.inl h
+    · exact Or.inr ⟨k, hk, e', he', rfl⟩
+  · rintro (h | ⟨k, hk, e', he', rfl⟩)
+    · exact Or.inl h
+    · exact Or.inr ⟨k, hk, e', he', rfl⟩
+
+/-- every component of a source triple is a non-auxiliary column of the mixed support -/
+lemma xsrc_lt (hxl : ∀ e ∈ pro.xmat, e.length = 3) (hxp : ∀ e ∈ pro.xmat, ∀ j ∈ e, j < pro.lp.nc)
+    (hxle : ∀ k < exps.length, ∀ e ∈ (blk exps k).xmat, e.length = 3)
+    (hxe : ∀ k < exps.length, ∀ e ∈ (blk exps k).xmat, ∀ j ∈ e, j < (blk exps k).lp.nc)
+    (e : List ℕ) (he : e ∈ xsrc pro exps) (t : ℕ) (ht : t < 3) :
+    e.getD t 0 < colEnd pro exps := by
+  rcases (mem_xsrc pro exps e).mp he with h | ⟨k, hk, e', he', rfl⟩
+  · have := hxp e h _ (getD_mem_gen e t (by rw [hxl e h]; exact ht) 0)
+    have := pro_nc_le_colEnd pro exps
+    omega
+  · have hl := hxle k hk e' he'
+    rw [getD_map_lt e' _ t (by rw [hl]; exact ht)]
+    have := hxe k hk e' he' _ (getD_mem_gen e' t (by rw [hl]; exact ht) 0)
+    have := colOff_add_le pro exps k hk
+    omega
+
+/-- the column read by copy row / auxiliary column `o` is a non-auxiliary column -/
+lemma xcol_lt (hxl : ∀ e ∈ pro.xmat, e.length = 3) (hxp : ∀ e ∈ pro.xmat, ∀ j ∈ e, j < pro.lp.nc)
+    (hxle : ∀ k < exps.length, ∀ e ∈ (blk exps k).xmat, e.length = 3)
+    (hxe : ∀ k < exps.length, ∀ e ∈ (blk exps k).xmat, ∀ j ∈ e, j < (blk exps k).lp.nc)
+    (o : ℕ) (ho : o < 3 * (xsrc pro exps).length) :
+    xcol pro exps o < colEnd pro exps :=
+  xsrc_lt pro exps hxl hxp hxle hxe _ (getD_mem_gen _ _ (by omega) _) _ (Nat.mod_lt _ (by omega))
+
+/-- the non-auxiliary part of the lifted point satisfies every forwarded exponential cone: those
+of `pro` at `π`, those of block `k` at `t_k·ν_k` (closure of the cone under scaling by `t_k ≥ 0`) -/
+lemma xsrc_exp (E : K → K → K → Prop)
+    (hEs : ∀ t a b c : K, 0 ≤ t → E a b c → E (t * a) (t * b) (t * c))
+    (hxl : ∀ e ∈ pro.xmat, e.length = 3) (hxp : ∀ e ∈ pro.xmat, ∀ j ∈ e, j < pro.lp.nc)
+    (hxle : ∀ k < exps.length, ∀ e ∈ (blk exps k).xmat, e.length = 3)
+    (hxe : ∀ k < exps.length, ∀ e ∈ (blk exps k).xmat, ∀ j ∈ e, j < (blk exps k).lp.nc)
+    (hπ : pro.Feas E π) (hν : ∀ k < exps.length, (blk exps k).Feas E (ν k))
+    (ht : ∀ k < exps.length, 0 ≤ evProb exps k π)
+    (e : List ℕ) (he : e ∈ xsrc pro exps) :
+    E (liftBase pro exps π ν (e.getD 0 0)) (liftBase pro exps π ν (e.getD 1 0))
+      (liftBase pro exps π ν (e.getD 2 0)) := by
+  rcases (mem_xsrc pro exps e).mp he with h | ⟨k, hk, e', he', rfl⟩
+  · have hl := hxl e h
+    have hm : ∀ t < 3, e.getD t 0 < pro.lp.nc := fun t ht =>
+      hxp e h _ (getD_mem_gen e t (by rw [hl]; exact ht) 0)
+    rw [liftBase_pro pro exps π ν _ (hm 0 (by omega)), liftBase_pro pro exps π ν _ (hm 1 (by omega)),
+      liftBase_pro pro exps π ν _ (hm 2 (by omega))]
+    exact hπ.exp e h
+  · have hl := hxle k hk e' he'
+    have hm : ∀ t < 3, e'.getD t 0 < (blk exps k).lp.nc := fun t ht =>
+      hxe k hk e' he' _ (getD_mem_gen e' t (by rw [hl]; exact ht) 0)
+    rw [getD_map_lt e' _ 0 (by omega), getD_map_lt e' _ 1 (by omega), getD_map_lt e' _ 2 (by omega),
+      Nat.add_comm (e'.getD 0 0), Nat.add_comm (e'.getD 1 0), Nat.add_comm (e'.getD 2 0),
+      liftBase_blk pro exps π ν k hk _ (hm 0 (by omega)),
+      liftBase_blk pro exps π ν k hk _ (hm 1 (by omega)),
+      liftBase_blk pro exps π ν k hk _ (hm 2 (by omega))]
+    exact hEs _ _ _ _ (ht k hk) ((hν k hk).exp e' he')
 
 lemma mem_mix_qmat (q : List ℕ) :
     q ∈ (mixSupport pro exps).qmat ↔
@@ -389,9 +474,9 @@ lemma mem_mix_qmat (q : List ℕ) :
     · exact Or.inr ⟨k, hk, q', hq', rfl⟩
 
 lemma mem_mix_xmat (e : List ℕ) :
-    e ∈ (mixSupport pro exps).xmat ↔ ∃ i, i < pro.xmat.length ∧
+    e ∈ (mixSupport pro exps).xmat ↔ ∃ i, i < (xsrc pro exps).length ∧
       e = [colEnd pro exps + 3 * i, colEnd pro exps + 3 * i + 1, colEnd pro exps + 3 * i + 2] := by
-  show e ∈ (List.range pro.xmat.length).map (fun i =>
+  show e ∈ (List.range (xsrc pro exps).length).map (fun i =>
       [colEnd pro exps + 3 * i, colEnd pro exps + 3 * i + 1, colEnd pro exps + 3 * i + 2]) ↔ _
   simp only [List.mem_map, List.mem_range]
   constructor
@@ -399,14 +484,18 @@ lemma mem_mix_xmat (e : List ℕ) :
   · rintro ⟨i, hi, rfl⟩; exact ⟨i, hi, rfl⟩
 
 /-- **Lifting**: probabilities feasible for `pro` and, for every event, a point feasible for its
-expectation program (exponential cones ignored) give a feasible point of the mixed support -/
+expectation program (exponential cones included; the cone predicate `E` is closed under scaling by
+`t ≥ 0`) give a feasible point of the mixed support -/
 theorem lift_feas (E : K → K → K → Prop)
+    (hEs : ∀ t a b c : K, 0 ≤ t → E a b c → E (t * a) (t * b) (t * c))
     (hqp : ∀ q ∈ pro.qmat, ∀ j ∈ q, j < pro.lp.nc)
     (hxl : ∀ e ∈ pro.xmat, e.length = 3) (hxp : ∀ e ∈ pro.xmat, ∀ j ∈ e, j < pro.lp.nc)
     (hqe : ∀ k < exps.length, ∀ q ∈ (blk exps k).qmat, ∀ j ∈ q, j < (blk exps k).lp.nc)
+    (hxle : ∀ k < exps.length, ∀ e ∈ (blk exps k).xmat, e.length = 3)
+    (hxe : ∀ k < exps.length, ∀ e ∈ (blk exps k).xmat, ∀ j ∈ e, j < (blk exps k).lp.nc)
     (hidx : ∀ k < exps.length, ∀ s ∈ idx exps k, s < pro.lp.nc)
     (hπ : pro.Feas E π)
-    (hν : ∀ k < exps.length, (blk exps k).Feas (fun _ _ _ => True) (ν k))
+    (hν : ∀ k < exps.length, (blk exps k).Feas E (ν k))
     (ht : ∀ k < exps.length, 0 ≤ evProb exps k π) :
     (mixSupport pro exps).Feas E (liftPoint pro exps π ν) := by
   refine ⟨⟨?_, fun _ _ => trivial, fun _ _ => trivial⟩, ?_, ?_⟩
@@ -452,9 +541,9 @@ theorem lift_feas (E : K → K → K → Prop)
       · rw [if_neg he] at h ⊢
         exact mul_nonpos_of_nonneg_of_nonpos t0 (by linarith)
     · -- a copy row of an exponential cone
-      have hlt := xidx_lt pro hxl hxp o ho
+      have hlt := xcol_lt pro exps hxl hxp hxle hxe o ho
       have hrow : (mixSupport pro exps).lp.row (rowEnd pro exps + o) (liftPoint pro exps π ν) = 0 := by
-        rw [mix_row_aux pro exps o ho hlt, liftPoint_aux, liftPoint_pro pro exps π ν _ hlt]
+        rw [mix_row_aux pro exps o ho hlt, liftPoint_aux, liftPoint_lt pro exps π ν _ hlt]
         ring
       rw [hrow, mix_b_ge pro exps _ (by unfold rowEnd; omega)]
       split_ifs <;> simp
@@ -469,14 +558,15 @@ theorem lift_feas (E : K → K → K → Prop)
       · exact socMem_scale _ (ht k hk) (ν k) q' ((hν k hk).soc q' hq')
   · intro e he
     obtain ⟨i, hi, rfl⟩ := (mem_mix_xmat pro exps e).mp he
-    have hm : pro.xmat.getD i [] ∈ pro.xmat := getD_mem_gen _ _ hi _
-    have h := hπ.exp _ hm
+    have hm : (xsrc pro exps).getD i [] ∈ xsrc pro exps := getD_mem_gen _ _ hi _
+    have h := xsrc_exp pro exps π ν E hEs hxl hxp hxle hxe hπ hν ht _ hm
     have e0 : colEnd pro exps + 3 * i = colEnd pro exps + (3 * i + 0) := by omega
     have e1 : colEnd pro exps + 3 * i + 1 = colEnd pro exps + (3 * i + 1) := by omega
     have e2 : colEnd pro exps + 3 * i + 2 = colEnd pro exps + (3 * i + 2) := by omega
     simp only [List.getD_cons_zero, List.getD_cons_succ]
-    rw [e2, e1, e0, liftPoint_aux, liftPoint_aux, liftPoint_aux,
-      show (3 * i + 0) / 3 = i by omega, show (3 * i + 1) / 3 = i by omega,
+    rw [e2, e1, e0, liftPoint_aux, liftPoint_aux, liftPoint_aux]
+    unfold xcol
+    rw [show (3 * i + 0) / 3 = i by omega, show (3 * i + 1) / 3 = i by omega,
       show (3 * i + 2) / 3 = i by omega, show (3 * i + 0) % 3 = 0 by omega,
       show (3 * i + 1) % 3 = 1 by omega, show (3 * i + 2) % 3 = 2 by omega]
     exact h
